@@ -79,7 +79,24 @@ func LoadKnown(prop string) []KnownFinding {
 	return out
 }
 
-func (c *Check) Set(k string, v any)  { c.mu.Lock(); c.cov[k] = v; c.mu.Unlock() }
+func (c *Check) Set(k string, v any) { c.mu.Lock(); c.cov[k] = v; c.mu.Unlock() }
+
+// Inc adds n to the integer counter k of the coverage record.
+func (c *Check) Inc(k string, n int64) {
+	c.mu.Lock()
+	cur, _ := c.cov[k].(int64)
+	c.cov[k] = cur + n
+	c.mu.Unlock()
+}
+
+// SetDefault sets coverage key k unless the driver already did.
+func (c *Check) SetDefault(k string, v any) {
+	c.mu.Lock()
+	if _, ok := c.cov[k]; !ok {
+		c.cov[k] = v
+	}
+	c.mu.Unlock()
+}
 func (c *Check) Assume(s string)      { c.mu.Lock(); c.assume = append(c.assume, s); c.mu.Unlock() }
 func (c *Check) AddEvals(n int64)     { c.mu.Lock(); c.evals += n; c.mu.Unlock() }
 func (c *Check) AddTraces(n int64)    { c.mu.Lock(); c.traces += n; c.mu.Unlock() }
